@@ -1,6 +1,7 @@
 package prop
 
 import (
+	"os"
 	banktypes "github.com/cosmos/cosmos-sdk/x/bank/types"
 	sdkmath "cosmossdk.io/math"
 	"encoding/hex"
@@ -58,6 +59,8 @@ type rndTag struct {
 }
 
 type randomWorkload struct {
+	answerAll bool // every seed request is answered properly (no time-outs, errors or foreign answers)
+	holdNew   bool // no new random requests for the time being
 	run      *ev.Run
 	r        *rig.Rig
 	reqs     map[string]*rndReq // hex id
@@ -147,7 +150,11 @@ func (w *randomWorkload) Next(block int) []rig.Tx {
 			continue
 		}
 		for _, id := range b.RequestIDs {
-			switch rng.Intn(8) {
+			k := rng.Intn(8)
+			if w.answerAll && k < 3 {
+				k = 3 // the chain of this case is exported and restarted later: no seed request is left hanging or sent astray
+			}
+			switch k {
 			case 0: // never answer: times out
 				w.run.Count("oracle-left-to-time-out", 1)
 			case 1:
@@ -169,6 +176,9 @@ func (w *randomWorkload) Next(block int) []rig.Tx {
 		}
 	}
 	w.pending = nil
+	if w.holdNew {
+		return out
+	}
 	// new requests: distinct requesters per block (scope rule)
 	n := rng.Intn(5)
 	if block%17 == 0 {
@@ -565,18 +575,70 @@ func runRandom(run *ev.Run, c int) {
 		purePRNG(run, tierN(run.Tier, 50000, 1000000))
 	}
 	w := newRandomWorkload()
-	r := rig.New(rig.Options{Seed: fmt.Sprintf("rnd-%d-%d", run.Seed, c), NumAccounts: 10, Balances: sdk.NewCoins(sdk.NewInt64Coin(rig.BondDenom, 10_000_000)), InflationOff: true, InitialHeight: boundaryHeight(c), SubSecond: c%2 == 1})
+	opts := rig.Options{Seed: fmt.Sprintf("rnd-%d-%d", run.Seed, c), NumAccounts: 10, Balances: sdk.NewCoins(sdk.NewInt64Coin(rig.BondDenom, 10_000_000)), InflationOff: true, InitialHeight: boundaryHeight(c), SubSecond: c%2 == 1}
+	if c%4 == 3 {
+		// the chain that is exported and restarted: service request contexts live for five blocks instead of a hundred, so
+		// that a quiet window of fifteen blocks leaves nothing in flight but the one request waiting for its due height
+		opts.GenesisMutator = func(cdc codec.Codec, gs map[string]json.RawMessage) {
+			var sg servicetypes.GenesisState
+			cdc.MustUnmarshalJSON(gs[servicetypes.ModuleName], &sg)
+			sg.Params.MaxRequestTimeout = 5
+			gs[servicetypes.ModuleName] = cdc.MustMarshalJSON(&sg)
+		}
+	}
+	r := rig.New(opts)
 	w.Attach(run, r)
 	r.Snapshot = func(ctx sdk.Context) any { return w.snapshot(ctx) }
 	blocks := tierN(run.Tier, 150, 500)
+	// every fourth case: the chain is exported as it is while an oracle-seeded request is still waiting for its due height
+	// (nothing else in flight), a new application is started from that export, and the same history goes on there - the
+	// request has to be fulfilled when its seed response arrives, and everything made before has to read back unchanged
+	restartAt := -1
+	if c%4 == 3 {
+		restartAt = blocks * 2 / 3
+		w.answerAll = true
+	}
 	for b := 0; b < blocks; b++ {
 		dt := time.Duration(1+run.Rng.Intn(3600)) * time.Second
-		br := r.DeliverBlock(dt, w.Next(b))
+		txs := w.Next(b)
+		if restartAt > 0 {
+			switch {
+			case b == restartAt-15:
+				w.holdNew = true
+				a := r.Acc(1) // a provider's account: the workload never lets it request (one request per requester and block)
+				txs = append(txs, r.Mk(a, &rndTag{Kind: "request-oracle", Key: "pending-across-restart"}, &randomtypes.MsgRequestRandom{BlockInterval: 21, Consumer: a.Addr.String(), Oracle: true, ServiceFeeCap: sdk.NewCoins(sdk.NewInt64Coin(rig.BondDenom, 10))}))
+			case b == restartAt:
+				if r2 := rndRestartFromExport(run, r, opts); r2 != nil {
+					r = r2
+					w.r = r2
+					// the module's export leaves fulfilled numbers behind (documented there, and compared nowhere by C12
+					// either): what was generated before the restart is not expected to read back on the new chain
+					run.Count("results-left-behind-by-the-export", int64(len(w.prevRes)))
+					w.prevRes = nil
+					r.Snapshot = func(ctx sdk.Context) any { return w.snapshot(ctx) }
+				}
+			case b == restartAt+2:
+				w.holdNew = false
+			}
+		}
+		br := r.DeliverBlock(dt, txs)
+		if os.Getenv("VERIF_DEBUG") == "rnd" {
+			tags := ""
+			for _, tx := range br.Txs {
+				if t, ok := tx.Tag.(*rndTag); ok {
+					tags += t.Kind + ":" + t.Key[:minI(len(t.Key), 8)] + fmt.Sprint(tx.OK()) + " "
+				}
+			}
+			fmt.Fprintf(os.Stderr, "RND b=%d h=%d n=%d hash=%x %s\n", b, br.Height, len(txs), br.AppHash[:4], tags)
+		}
 		if br.FinalErr != nil {
 			run.Inconc("FinalizeBlock failed: %v", br.FinalErr)
 			return
 		}
 		w.Observe(br)
+	}
+	if restartAt > 0 {
+		run.Require("restarted-from-own-export", 1)
 	}
 	w.rereadAll()
 	run.Require("plain-fulfilled", 20)
@@ -589,4 +651,34 @@ func npick0(n int, quiet bool) int {
 		return n - 3
 	}
 	return n - 2
+}
+
+// rndRestartFromExport exports the chain as it is and starts a new application (same keys) from that export at the next
+// height. A refused import is reported by C12; here it only means that the history goes on where it was.
+func rndRestartFromExport(run *ev.Run, r *rig.Rig, opts rig.Options) *rig.Rig {
+	exp, err := r.Export(false)
+	if err != nil {
+		run.Count("restart-from-export:export-failed", 1)
+		return nil
+	}
+	o := opts
+	o.NoInit = true
+	o.GenesisTime = r.Time
+	r2 := rig.New(o)
+	if err := r2.TryInitChain(exp.AppState, exp.Height, r.Time); err != nil {
+		run.Count("restart-from-export:import-refused", 1)
+		run.Note("restart from the chain's own export refused: %v", err)
+		return nil
+	}
+	r2.SyncSeqs()
+	run.Count("restarted-from-own-export", 1)
+	run.Class("restart", "from-own-export", "pending-oracle-request")
+	return r2
+}
+
+func minI(a, b int) int {
+	if a < b {
+		return a
+	}
+	return b
 }
